@@ -21,7 +21,13 @@
 (*   aborting : d             the user called TransferManager.abort for d   *)
 (*              (recorded when the call is made: from here on d is not an   *)
 (*              active download, its task is being cancelled)               *)
-(*   abort_refused : d        that call raised: d goes on as before          *)
+(*   abort_refused : d        that call (abort / pause) raised: d goes on    *)
+(*   pausing  : d             the user called TransferManager.pause for d   *)
+(*   requeued : d             the user queued d again (it was paused, failed *)
+(*              or aborted); the uploader restarts it                       *)
+(*   resumed  : d, rel        d goes on with the local path it still had:   *)
+(*              it entered the prepare step / became DOWNLOADING without a  *)
+(*              new choice                                                  *)
 (*   removed  : rel           a file below the download directory vanished  *)
 (* Anything created outside the download directory is recorded as          *)
 (* `created_outside` and has no action here: the trace is rejected.         *)
@@ -36,9 +42,9 @@ EXTENDS Naming, Json, IOUtils
 
 Traces == JsonDeserialize(IOEnv.TRACE_FILE)
 
-VARIABLES tid, l, marks, excused, obs, before
+VARIABLES tid, l, marks, excused, obs, before, why
 
-tvars == <<vars, tid, l, marks, excused, obs, before>>
+tvars == <<vars, tid, l, marks, excused, obs, before, why>>
 
 T == Traces[tid]
 Rec == T[l]
@@ -57,13 +63,16 @@ TInit ==
   /\ chosen = [d \in Downloads |-> <<>>]
   /\ fresh = [d \in Downloads |-> TRUE]
   /\ lock = 0
+  /\ made = [d \in Downloads |-> FALSE]
+  /\ nint = 0
   /\ marks = {}
   /\ excused = {}
   /\ obs = [d \in Downloads |-> [existed |-> FALSE, realInside |-> TRUE]]
   /\ before = [d \in Downloads |-> "choose"]
+  /\ why = [d \in Downloads |-> "none"]      \* how the download last became inactive
 
 IsEv(e) == l <= Len(T) /\ Rec.ev = e
-Consume == l' = l + 1 /\ UNCHANGED <<tid, before>>
+Consume == l' = l + 1 /\ UNCHANGED <<tid, before, why>>
 
 Agrees(d, rel) ==
   \E san \in BOOLEAN : ~RefusesX(remote[d], san) /\ PredictX(chain, remote[d], san) = rel
@@ -124,7 +133,7 @@ TCreatedOther ==
   /\ Len(Rec.rel) >= 1
   /\ \A d \in Downloads : HasChosen(d) => Resolve(chosen[d]).at # Rec.rel
   /\ files' = files \cup {Rec.rel}
-  /\ UNCHANGED <<dirs, chain, remote, pc, chosen, fresh, lock>>
+  /\ UNCHANGED <<dirs, chain, remote, pc, chosen, fresh, lock, made, nint>>
   /\ Consume /\ UNCHANGED <<marks, excused, obs>>
 
 \* mkdir / open of download d's path raised an OSError (seen by the harness, which executes the
@@ -134,15 +143,16 @@ TIoFail ==
   /\ Rec.d \in Downloads
   /\ pc[Rec.d] \in {"mkdir", "start", "open", "failed"}
   /\ pc' = [pc EXCEPT ![Rec.d] = "failed"]
-  /\ UNCHANGED <<files, dirs, chain, remote, chosen, fresh, lock>>
-  /\ Consume /\ UNCHANGED <<marks, excused, obs>>
+  /\ UNCHANGED <<files, dirs, chain, remote, chosen, fresh, lock, made, nint>>
+  /\ why' = [why EXCEPT ![Rec.d] = "oserror"]
+  /\ l' = l + 1 /\ UNCHANGED <<tid, before, marks, excused, obs>>
 
 TFinished ==
   /\ IsEv("finished")
   /\ Rec.d \in Downloads
   /\ pc[Rec.d] \notin {"choose", "done"}
   /\ pc' = [pc EXCEPT ![Rec.d] = "done"]
-  /\ UNCHANGED <<files, dirs, chain, remote, chosen, fresh, lock>>
+  /\ UNCHANGED <<files, dirs, chain, remote, chosen, fresh, lock, made, nint>>
   /\ Consume /\ UNCHANGED <<marks, excused, obs>>
 
 \* the user aborts download d (Abort of the design spec, observed in two halves: the call, and
@@ -153,43 +163,104 @@ TAborting ==
   /\ pc[Rec.d] \notin {"done", "aborted"}
   /\ before' = [before EXCEPT ![Rec.d] = pc[Rec.d]]
   /\ pc' = [pc EXCEPT ![Rec.d] = "aborted"]
-  /\ UNCHANGED <<files, dirs, chain, remote, chosen, fresh, lock>>
+  /\ UNCHANGED <<files, dirs, chain, remote, chosen, fresh, lock, made, nint>>
+  /\ why' = [why EXCEPT ![Rec.d] = "abort"]
   /\ l' = l + 1 /\ UNCHANGED <<tid, marks, excused, obs>>
 
 TAbortRefused ==
   /\ IsEv("abort_refused")
   /\ Rec.d \in Downloads
-  /\ pc[Rec.d] = "aborted"
+  /\ pc[Rec.d] \in {"aborted", "paused"}
   /\ pc' = [pc EXCEPT ![Rec.d] = before[Rec.d]]
-  /\ UNCHANGED <<files, dirs, chain, remote, chosen, fresh, lock>>
+  /\ UNCHANGED <<files, dirs, chain, remote, chosen, fresh, lock, made, nint>>
   /\ Consume /\ UNCHANGED <<marks, excused, obs>>
+
+\* the user pauses download d: recorded when the call is made, d is not active from here on
+TPausing ==
+  /\ IsEv("pausing")
+  /\ Rec.d \in Downloads
+  /\ pc[Rec.d] \notin {"done", "aborted", "paused", "requeued"}
+  /\ before' = [before EXCEPT ![Rec.d] = pc[Rec.d]]
+  /\ pc' = [pc EXCEPT ![Rec.d] = "paused"]
+  /\ UNCHANGED <<files, dirs, chain, remote, chosen, fresh, lock, made, nint>>
+  /\ why' = [why EXCEPT ![Rec.d] = "pause"]
+  /\ l' = l + 1 /\ UNCHANGED <<tid, marks, excused, obs>>
+
+\* the user queues an inactive download again
+TRequeued ==
+  /\ IsEv("requeued")
+  /\ Rec.d \in Downloads
+  /\ pc[Rec.d] \in {"paused", "failed", "aborted", "done"}
+  /\ pc' = [pc EXCEPT ![Rec.d] = "requeued"]
+  /\ UNCHANGED <<files, dirs, chain, remote, chosen, fresh, lock, made, nint>>
+  /\ Consume /\ UNCHANGED <<marks, excused, obs>>
+
+\* downloads that are active with the path `rel`
+Users(d, rel) == {e \in Downloads \ {d} : Active(e) /\ Resolve(chosen[e]) = Resolve(rel)}
+
+\* Resume of the design spec with a kept path: the download goes on with the path it still had
+TResumed ==
+  /\ IsEv("resumed")
+  /\ Rec.d \in Downloads
+  /\ Len(Rec.rel) >= 1
+  /\ pc[Rec.d] = "requeued"
+  /\ pc' = [pc EXCEPT ![Rec.d] = "mkdir"]
+  /\ chosen' = [chosen EXCEPT ![Rec.d] = Rec.rel]
+  /\ UNCHANGED <<files, dirs, chain, remote, fresh, lock, made, nint>>
+  /\ Consume /\ UNCHANGED <<marks, excused, obs>>
+
+\* Tolerated deviation (finding "resume:stale-local-path:never-created:after-<pause|oserror|abort>"): the path the download
+\* kept was never materialised by it and has meanwhile been given to another, active download.
+\* Marked; only the pairs it produced are excluded from DistinctActivePaths.
+TResumedStale ==
+  /\ IsEv("resumed")
+  /\ Rec.d \in Downloads
+  /\ Len(Rec.rel) >= 1
+  /\ pc[Rec.d] = "requeued"
+  /\ ~made[Rec.d]
+  /\ Users(Rec.d, Rec.rel) # {}
+  /\ pc' = [pc EXCEPT ![Rec.d] = "mkdir"]
+  /\ chosen' = [chosen EXCEPT ![Rec.d] = Rec.rel]
+  /\ excused' = excused \cup {{Rec.d, e} : e \in Users(Rec.d, Rec.rel)}
+  /\ marks' = marks \cup {"resume:stale-local-path:never-created:after-" \o why[Rec.d]}
+  /\ UNCHANGED <<files, dirs, chain, remote, fresh, lock, made, nint>>
+  /\ Consume /\ UNCHANGED obs
 
 \* a file vanished: it is the local file of a download (abort removes it)
 TRemoved ==
   /\ IsEv("removed")
   /\ \E d \in Downloads : HasChosen(d) /\ Created(d) = {Rec.rel}
   /\ files' = files \ {Rec.rel}
-  /\ UNCHANGED <<dirs, chain, remote, pc, chosen, fresh, lock>>
+  /\ UNCHANGED <<dirs, chain, remote, pc, chosen, fresh, lock, made, nint>>
   /\ Consume /\ UNCHANGED <<marks, excused, obs>>
+
+\* a re-queued download that forgot its path chooses like a new one (Resume of the design spec)
+Forget(d) ==
+  /\ pc[d] = "requeued"
+  /\ pc' = [pc EXCEPT ![d] = "choose"]
+  /\ chosen' = [chosen EXCEPT ![d] = <<>>]
+  /\ fresh' = [fresh EXCEPT ![d] = TRUE]
+  /\ UNCHANGED <<files, dirs, chain, remote, lock, made, nint>>
 
 Silent ==
   /\ l <= Len(T)
   /\ \E d \in Downloads :
+       \/ Forget(d)
        \/ Mkdir(d)
        \/ Start(d)
        \/ (pc[d] = "open" /\ (~CanOpen(d) \/ Created(d) \subseteq files) /\ Open(d))
-  /\ UNCHANGED <<tid, l, marks, excused, obs, before>>
+  /\ UNCHANGED <<tid, l, marks, excused, obs, before, why>>
 
 Done ==
   /\ l = Len(T) + 1
   /\ PrintT(<<"ACCEPT", tid, marks>>)
   /\ l' = l + 1
-  /\ UNCHANGED <<vars, tid, marks, excused, obs, before>>
+  /\ UNCHANGED <<vars, tid, marks, excused, obs, before, why>>
 
 Finished == l = Len(T) + 2 /\ UNCHANGED tvars
 
 TNext == TChosen \/ TChosenRace \/ TRefused \/ TCreated \/ TCreatedOther \/ TIoFail \/ TFinished
-         \/ TAborting \/ TAbortRefused \/ TRemoved
+         \/ TAborting \/ TAbortRefused \/ TRemoved \/ TPausing \/ TRequeued \/ TResumed \/ TResumedStale
          \/ Silent \/ Done \/ Finished
 
 TSpec == TInit /\ [][TNext]_tvars
